@@ -69,6 +69,16 @@ class SFn:
         return f"SFn({self.name})"
 
 
+class SOpaqueStr:
+    """opaque string token: only the external operations applied to it are recorded (structural contracts)"""
+
+    def __init__(self, term):
+        self.term = term
+
+    def __repr__(self):
+        return f"SOpaqueStr({self.term})"
+
+
 class SObj:
     """instance created during a symbolic run: live class + optional string payload; fields live in the heap"""
 
@@ -138,7 +148,7 @@ class BreakSignal(Exception):
     pass
 
 
-SYM = (SInt, SBool, SStr, SDecStr, SFn)
+SYM = (SInt, SBool, SStr, SDecStr, SFn, SOpaqueStr)
 
 
 def is_sym(v):
@@ -216,4 +226,4 @@ def lift_str(v):
 
 def is_strlike(v):
     v = payload(v)
-    return isinstance(v, (str, SStr, SDecStr, SFn))
+    return isinstance(v, (str, SStr, SDecStr, SFn, SOpaqueStr))
